@@ -82,6 +82,7 @@ ObjectFns == <<[n |-> <<103,101,116,80,114,111,116,111,116,121,112,101,79,102>>,
                [n |-> <<100,101,102,105,110,101,80,114,111,112,101,114,116,121>>, f |-> "O_defineProperty", len |-> 3]>>
 ObjectFnNames == {ObjectFns[i].f : i \in 1..Len(ObjectFns)}
 Id_ObjectFn(i) == 28 + i         \* after the native error constructors and prototypes (17..28)
+Id_Eval == 28 + Len(ObjectFns) + 1
 S_defineProperties == <<100,101,102,105,110,101,80,114,111,112,101,114,116,105,101,115>>
 
 ErrorNames == <<S_Error, S_TypeError, S_ReferenceError, S_RangeError, S_SyntaxError, S_EvalError, S_URIError>>
@@ -571,6 +572,9 @@ CallIn(st, f, thisV, args) ==
                                ELSE LET l == ListFromArrayLike(lv.st, args[2].id, 0, lv.v.n.v, <<>>)
                                     IN  IF l.thr # "" THEN [st |-> l.st, v |-> Undef, thr |-> l.thr]
                                         ELSE Call(l.st, thisV, args[1], l.l)
+                [] fn.name = "eval" ->            \* reached by call/apply/bind or through a value: an indirect eval
+                      IF SeqGet(args, 1).t # "str" THEN Ok(st, SeqGet(args, 1))       \* 15.1.2.1 step 1
+                      ELSE Und(st)                                                  \* the program text is known only at "eval" nodes
                 [] fn.name = "bind" ->
                       IF ~IsCallableV(st, thisV) THEN ThrowErr(st, S_TypeError)
                       ELSE LET b == Alloc(st, [OM!NewObj("Function", FunctionProto) EXCEPT
@@ -902,25 +906,42 @@ EvalBody(node, cx, st) ==
             \* "bad": the text does not parse: 15.1.2.1 step 3 SyntaxError; "lhs": it parses but assigns to
             \* a non-reference, an early error (clause 16) of class ReferenceError (8.7.2 step 1)
             \* (D19_eval_invalid_lhs_syntaxerror: otto reports a SyntaxError).
-            LET ecx == IF node.direct THEN [cx EXCEPT !.file = FileOf(node)]
-                       ELSE [lex |-> GlobalEnv, var |-> GlobalEnv, this |-> ObjV(GlobalObj), file |-> FileOf(node)]
-                extra == IF node.direct THEN 0 ELSE 2
-                stS == Site(st, cx, IF ~node.direct /\ D("D19_nonref_callee_site_dropped") THEN -1 ELSE Pos(node))
-                stE == IF node.direct
-                       THEN (IF Bad(node) = "" THEN [stS EXCEPT !.fr[Len(stS.fr)].file = FileOf(node)] ELSE stS)
-                       ELSE PushFrame(stS, NativeFrame)
-            IN  IF extra > 0 /\ st.limit > 0 /\ st.depth + extra >= st.limit THEN ThrowErr(st, S_RangeError)
-                ELSE IF Bad(node) # "" THEN
-                     (LET t == ThrowErr(stE, IF Bad(node) = "lhs" /\ ~D("D19_eval_invalid_lhs_syntaxerror") THEN S_ReferenceError ELSE S_SyntaxError)
-                      IN  [t EXCEPT !.st.fr = stS.fr])
-                ELSE LET c == RunBody([(IF node.direct THEN stE ELSE PushFrame(stE, UserFrame(<<>>, FileOf(node)))) EXCEPT !.depth = @ + extra], node.prog, ecx, TRUE)
-                         \* afterwards the caller stands at the eval call again (under the deviation its frame stays
-                         \* where the eval code left it, file included)
-                         stR == [c.st EXCEPT !.depth = st.depth, !.fr = IF node.direct /\ D("D19_eval_leaves_frame_file") THEN @ ELSE stS.fr]
-                     IN  CASE c.ty = "normal" -> Ok(stR, IF c.v = Empty THEN Undef ELSE c.v)
-                           [] c.ty = "throw" -> Thr(stR, c.v)
-                           [] c.ty = "interrupt" -> Intr(stR)
-                           [] OTHER -> Und(stR)
+            \* An "eval" node with a field f: the callee is an expression, evaluated like the callee of a
+            \* call (11.2.3); whether the call is a direct eval is decided at run time (15.1.2.1.1: the
+            \* callee is a Reference to an environment record binding named "eval" whose value is the
+            \* built-in eval function - a formal parameter, a local variable or a with-object property
+            \* named eval qualify).  A callee that is not the built-in function is an ordinary call with
+            \* the source text (node.src) as argument.  Without f: eval(...) / (0, eval)(...) as written.
+            LET EvalCode(direct, st0) ==
+                LET ecx == IF direct THEN [cx EXCEPT !.file = FileOf(node)]
+                           ELSE [lex |-> GlobalEnv, var |-> GlobalEnv, this |-> ObjV(GlobalObj), file |-> FileOf(node)]
+                    extra == IF direct THEN 0 ELSE 2
+                    stS == Site(st0, cx, IF ~direct /\ D("D19_nonref_callee_site_dropped") THEN -1 ELSE Pos(node))
+                    stE == IF direct
+                           THEN (IF Bad(node) = "" THEN [stS EXCEPT !.fr[Len(stS.fr)].file = FileOf(node)] ELSE stS)
+                           ELSE PushFrame(stS, NativeFrame)
+                IN  IF extra > 0 /\ st0.limit > 0 /\ st0.depth + extra >= st0.limit THEN ThrowErr(st0, S_RangeError)
+                    ELSE IF Bad(node) # "" THEN
+                         (LET t == ThrowErr(stE, IF Bad(node) = "lhs" /\ ~D("D19_eval_invalid_lhs_syntaxerror") THEN S_ReferenceError ELSE S_SyntaxError)
+                          IN  [t EXCEPT !.st.fr = stS.fr])
+                    ELSE LET c == RunBody([(IF direct THEN stE ELSE PushFrame(stE, UserFrame(<<>>, FileOf(node)))) EXCEPT !.depth = @ + extra], node.prog, ecx, TRUE)
+                             \* afterwards the caller stands at the eval call again (under the deviation its frame stays
+                             \* where the eval code left it, file included)
+                             stR == [c.st EXCEPT !.depth = st0.depth, !.fr = IF direct /\ D("D19_eval_leaves_frame_file") THEN @ ELSE stS.fr]
+                         IN  CASE c.ty = "normal" -> Ok(stR, IF c.v = Empty THEN Undef ELSE c.v)
+                               [] c.ty = "throw" -> Thr(stR, c.v)
+                               [] c.ty = "interrupt" -> Intr(stR)
+                               [] OTHER -> Und(stR)
+            IN  IF "f" \notin DOMAIN node THEN EvalCode(node.direct, st)
+                ELSE LET isRef == node.f.k \in {"id", "dot", "idx"}
+                         fr == IF isRef THEN EvalRef(node.f, cx, st) ELSE [st |-> st, thr |-> ""]
+                     IN  IF fr.thr # "" THEN [st |-> fr.st, v |-> fr.v, thr |-> fr.thr]
+                         ELSE LET fv == IF isRef THEN GetValueAt(fr.st, cx, fr.ref, node.f) ELSE Eval(node.f, cx, st)
+                              IN  IF fv.thr # "" THEN fv
+                                  ELSE IF fv.v = ObjV(Id_Eval)
+                                  THEN EvalCode(node.f.k = "id" /\ node.f.n = S_eval
+                                                /\ (fr.ref.k = "env" \/ (fr.ref.k = "prop" /\ fr.ref.envobj)), fv.st)
+                                  ELSE Call(Site(fv.st, cx, CallSite(node)), fv.v, IF isRef THEN ThisOfRef(fr.ref) ELSE Undef, <<StrV(node.src)>>)
       [] node.k = "fnctor" ->                                                 \* 15.3.2.1: new Function(p, body) / Function(p, body)
             \* only a body that does not parse is modelled (step 9-10: SyntaxError); called as a function
             \* the built-in is an active call, as a constructor (like the Error constructors) it adds none
@@ -1148,6 +1169,7 @@ BaseObjects ==
           IF j % 2 = 1 THEN ErrCtorObj(Id_NProto((j + 1) \div 2))
           ELSE [OM!NewObj("Error", ErrorProto) EXCEPT !.fn = [k |-> "error"]]]
     \o [j \in 1..Len(ObjectFns) |-> Builtin(ObjectFns[j].f)]
+    \o <<Builtin("eval")>>                                                         \* Id_Eval: the global eval function (15.1.2.1)
 
 RECURSIVE WireNative(_, _)
 WireNative(H, i) ==
@@ -1186,7 +1208,8 @@ Heap0 ==
                                GlobalObj, S_NaN, NumV(NaN), FALSE, FALSE, FALSE),
                        GlobalObj, S_Infinity, NumV(PInf), FALSE, FALSE, FALSE)
         h17 == W(h16, GlobalObj, S_H, ObjV(HostH))
-        h18 == DefAll(h17, GlobalObj, <<S_eval, S_Function, S_Array, S_String, S_Number, S_Boolean, S_Date, S_RegExp,
+        h17e == DefData(W(h17, GlobalObj, S_eval, ObjV(Id_Eval)), Id_Eval, S_length, IntV(1), FALSE, FALSE, FALSE)
+        h18 == DefAll(h17e, GlobalObj, <<S_Function, S_Array, S_String, S_Number, S_Boolean, S_Date, S_RegExp,
                                          S_Math, S_JSON, S_parseInt, S_parseFloat, S_isNaN, S_isFinite, S_console>>, UM)
         RECURSIVE WireObjectFns(_, _)
         WireObjectFns(H, j) ==
